@@ -13,6 +13,7 @@ mod cksum;
 mod codec;
 mod daemon;
 mod fs;
+mod net;
 mod path;
 mod seg;
 mod txn;
@@ -99,6 +100,7 @@ fn main() {
         "udp" => udp::run(&opts, &mut out),
         "fs" => fs::run(&opts, &mut out),
         "daemon" => daemon::run(&opts, &mut out),
+        "net" => net::run(&opts, &mut out),
         "recv" => txn::run_recv(&opts, &mut out),
         "send" => txn::run_send(&opts, &mut out),
         other => {
